@@ -212,3 +212,87 @@ func derefsOfLocal(v ssa.Value) []ssa.Instruction {
 }
 
 var _ = strings.TrimSpace
+
+// R14.11: the version interceptors run before the recovery interceptor in the chain, so a panic in them ends the
+// process. They read the request only through protobuf getters (nil-safe) or through a message pointer they have just
+// tested against nil: no field of a nested message is read through a pointer that may be nil.
+func ruleInterceptorsNilSafe(c *Ctx, rule string) {
+	c.ranRules[rule] = true
+	nf, n := 0, 0
+	for _, root := range c.P.SubjectFns() {
+		if isControlFn(root) || root.Parent() != nil || fnPkgPath(root) != pkCore {
+			continue
+		}
+		if bn := baseName(root); !strings.HasSuffix(bn, "NodeVersionValidator") && !strings.HasSuffix(bn, "NodeVersionStreamValidator") {
+			continue
+		}
+		nf++
+		// the validator, its literals, and the module functions it calls directly (helpers)
+		scope := withClosures(root)
+		for _, f := range withClosures(root) {
+			for _, ci := range callsIn(f, func(ssa.CallInstruction) bool { return true }) {
+				if cal := staticCallee(ci); cal != nil && fnPkgPath(cal) == pkCore && len(cal.Blocks) > 0 {
+					scope = append(scope, withClosures(cal)...)
+				}
+			}
+		}
+		seen := map[*ssa.Function]bool{}
+		for _, f := range scope {
+			if seen[f] {
+				continue
+			}
+			seen[f] = true
+			forEachInstr(f, func(_ *ssa.BasicBlock, _ int, in ssa.Instruction) {
+				fa, ok := in.(*ssa.FieldAddr)
+				if !ok {
+					return
+				}
+				pt, ok := fa.X.Type().Underlying().(*types.Pointer)
+				if !ok {
+					return
+				}
+				named, ok := pt.Elem().(*types.Named)
+				if !ok || named.Obj().Pkg() == nil || !strings.Contains(named.Obj().Pkg().Path(), "/protobuf/") {
+					return
+				}
+				n++
+				base := fa.X
+				safe, why := false, ""
+				switch b := stripConv(base).(type) {
+				case *ssa.Alloc:
+					safe, why = true, "a message built here"
+				case *ssa.TypeAssert:
+					safe, why = true, "the request itself, as decoded by gRPC"
+				case *ssa.Extract:
+					if _, isTA := b.Tuple.(*ssa.TypeAssert); isTA {
+						safe, why = true, "the request itself, as decoded by gRPC"
+					} else {
+						safe = mustCross(in, func(e edge) bool { return nonNilEdgeFor(e, base) })
+						why = "pointer tested against nil on every path"
+					}
+				case *ssa.Parameter:
+					safe = mustCross(in, func(e edge) bool { return nonNilEdgeFor(e, b) })
+					why = "parameter tested against nil"
+				default:
+					safe = mustCross(in, func(e edge) bool { return nonNilEdgeFor(e, base) })
+					why = "pointer tested against nil on every path"
+				}
+				c.Ok(rule, fmt.Sprintf("%s reads %s.%s through a pointer known not to be nil", fnShort(f), typeShort(fa.X.Type()), fieldName(fa.X.Type(), fa.Field)),
+					shortPos(c.P, in), safe, ifs(safe, why, "the pointer "+trimTemps(pathOf(base))+" is not tested against nil before the field is read; a panic here is outside the recovery interceptor"))
+			})
+		}
+	}
+	c.Floor(rule, "version interceptors", nf, 2)
+	_ = n
+}
+
+// nonNilEdgeFor: taking edge e establishes that v (same value or same access path) is not nil.
+func nonNilEdgeFor(e edge, v ssa.Value) bool {
+	for _, cj := range edgeConjuncts(e) {
+		x, isEq, isNil := nilTest(cj.cond)
+		if isNil && (x == v || pathOf(x) == pathOf(v)) && cj.truth != isEq {
+			return true
+		}
+	}
+	return false
+}
